@@ -195,6 +195,22 @@ pub struct Env {
     pub sc: Scenario,
     pub parsers: Vec<CooklangParser>,
     pub refs: BTreeMap<String, String>,
+    /// results the simulated caller keeps alive (see `Retained`)
+    pub retained: std::sync::Mutex<Vec<Retained>>,
+}
+
+/// A caller that keeps what a parse returned: the result stays alive while other operations run,
+/// is read again after the perturbed phase - a value the caller holds must not change its
+/// observable content because of unrelated later calls - and is dropped late, in another order
+/// than it was created (what a parse returns must not depend on which earlier results are still
+/// alive or in which order they die).
+pub struct Retained {
+    pub key: String,
+    pub parser: usize,
+    pub input: usize,
+    pub fp: String,
+    pub mode: u64,
+    pub result: cooklang::error::PassResult<cooklang::ScalableRecipe>,
 }
 
 fn full_key(sc: &Scenario, op: &Op) -> String {
@@ -397,6 +413,65 @@ fn fp_result<T: std::fmt::Debug + serde::Serialize + Accessors>(
     )
 }
 
+/// What the simulated caller does with a result after looking at it: `PassResult` and
+/// `SourceReport` have consuming methods (`into_result`, `into_report`, `into_tuple`, `unzip`,
+/// `into_vec`, `map`, ...), and the parts are dropped in one order or the other. Which way is a
+/// function of (operation, input text), so a reference and every later observation of a key do
+/// the same; what the consuming calls return is part of the fingerprint.
+fn consume<T: std::fmt::Debug>(r: cooklang::error::PassResult<T>, mode: u64) -> String {
+    match mode % 8 {
+        0 => {
+            drop(r);
+            "CONSUMED drop".into()
+        }
+        1 | 2 => match r.into_result() {
+            Ok((out, report)) => {
+                let s = format!("CONSUMED into_result Ok severity={:?} report={:?}", report.severity(), report);
+                if mode % 8 == 1 {
+                    drop(out);
+                    drop(report);
+                } else {
+                    drop(report);
+                    drop(out);
+                }
+                s
+            }
+            Err(report) => format!("CONSUMED into_result Err severity={:?} report={:?}", report.severity(), report),
+        },
+        3 => {
+            let report = r.into_report();
+            format!("CONSUMED into_report severity={:?} empty={} {:?}", report.severity(), report.is_empty(), report)
+        }
+        4 => {
+            let (out, report) = r.into_tuple();
+            let (errors, warnings) = report.unzip();
+            format!("CONSUMED into_tuple+unzip out={} errors={:?} warnings={:?}", out.is_some(), errors, warnings)
+        }
+        5 => {
+            let mut report = r.into_report();
+            report.remove_warnings();
+            let s = format!("CONSUMED remove_warnings severity={:?} {:?}", report.severity(), report);
+            let v = report.into_vec();
+            format!("{s} into_vec={}", v.len())
+        }
+        6 => {
+            let mapped = r.map(|o| format!("{o:?}").len());
+            format!("CONSUMED map valid={} {:?}", mapped.is_valid(), mapped.output())
+        }
+        _ => {
+            let out = r.into_output();
+            format!("CONSUMED into_output {}", out.is_some())
+        }
+    }
+}
+
+/// last line of the fingerprint of a result the caller kept (its consumption happens later)
+const RETAINED_MARK: &str = "RETAINED-BY-CALLER";
+
+fn consume_mode(op: &Op, input: &str) -> u64 {
+    fnv(input.as_bytes()).rotate_left(7) ^ fnv(op.kind_key().as_bytes())
+}
+
 pub enum Outcome {
     Done(String),
     /// unwound by an injected fault
@@ -511,7 +586,26 @@ pub fn perform(parser: &CooklangParser, input: &str, op: &Op, faults: bool, dept
                 None => parser.parse(input),
                 Some(_) => parser.parse_with_options(input, make_options(cb)),
             };
-            fp_result(&r, input, parser.converter())
+            let fp = fp_result(&r, input, parser.converter());
+            // the simulated caller keeps some results (perturbed phase, top level, short inputs)
+            let mode = consume_mode(op, input);
+            let mut r = Some(r);
+            if faults && depth == 0 && cb.is_none() && op.align == 0 && input.len() < 20_000 {
+                if let Some(env) = ENV.read().unwrap_or_else(|p| p.into_inner()).clone() {
+                    let mut keep = env.retained.lock().unwrap_or_else(|p| p.into_inner());
+                    if keep.len() < 6 {
+                        sim::fired("result_retained");
+                        keep.push(Retained { key: full_key(&env.sc, op), parser: op.parser, input: op.input, fp: fp.clone(), mode, result: r.take().unwrap() });
+                    }
+                }
+            }
+            // (a retained result is consumed the same way, later: the fingerprint of that part is
+            // compared when it happens)
+            match r {
+                Some(r) if input.len() <= 100_000 => format!("{fp}\n{}", consume(r, mode)),
+                Some(_) => fp,
+                None => format!("{fp}\n{RETAINED_MARK}"),
+            }
         }),
         OpKind::Parse { via: Via::Adapter, cb, truncate } => {
             adapter_used = true;
@@ -523,7 +617,8 @@ pub fn perform(parser: &CooklangParser, input: &str, op: &Op, faults: bool, dept
                     seen: &seen,
                 };
                 let r = analysis::parse_events(it, input, parser.extensions(), parser.converter(), make_options(cb));
-                fp_result(&r, input, parser.converter())
+                let fp = fp_result(&r, input, parser.converter());
+                if input.len() <= 100_000 { format!("{fp}\n{}", consume(r, consume_mode(op, input))) } else { fp }
             })
         }
         OpKind::Metadata { via: Via::Direct, cb } => guarded(|| {
@@ -531,7 +626,8 @@ pub fn perform(parser: &CooklangParser, input: &str, op: &Op, faults: bool, dept
                 None => parser.parse_metadata(input),
                 Some(_) => parser.parse_metadata_with_options(input, make_options(cb)),
             };
-            fp_result(&r, input, parser.converter())
+            let fp = fp_result(&r, input, parser.converter());
+            if input.len() <= 100_000 { format!("{fp}\n{}", consume(r, consume_mode(op, input))) } else { fp }
         }),
         OpKind::Metadata { via: Via::Adapter, cb } => {
             adapter_used = true;
@@ -579,7 +675,8 @@ pub fn perform(parser: &CooklangParser, input: &str, op: &Op, faults: bool, dept
         OpKind::ParseFree => guarded(|| {
             let r = cooklang::parse(input);
             // (the key of this operation ignores `parser`: read the accessors with the default converter)
-            fp_result(&r, input, &Converter::default())
+            let fp = fp_result(&r, input, &Converter::default());
+            if input.len() <= 100_000 { format!("{fp}\n{}", consume(r, consume_mode(op, input))) } else { fp }
         }),
         OpKind::BuildAst => guarded(|| {
             let it = Adapter {
@@ -781,6 +878,9 @@ fn check(env: &Env, op: &Op, obsd: &Observed, phase: &str, faults: bool) {
         }
         _ => match env.refs.get(&key) {
             Some(reference) if reference == got => {}
+            // a result the caller kept: everything but the consuming calls, which come later
+            Some(reference)
+                if got.strip_suffix(RETAINED_MARK).map_or(false, |head| reference.starts_with(head) && (reference[head.len()..].starts_with("CONSUMED") || head.len() > 100_000)) => {}
             Some(reference) => sim::violation("mismatch", &key, phase, first_diff(reference, got)),
             None => sim::violation("harness", &key, phase, "no reference for key".into()),
         },
@@ -892,7 +992,7 @@ fn reference_phase_inner2(sc: &Scenario, reverse: bool) -> RefPhase {
         }
     }
     cooklang::verif_seam::reseed(sc.hash_seed ^ 0x1234_5678);
-    let mut env = Env { sc: sc.clone(), parsers, refs: BTreeMap::new() };
+    let mut env = Env { sc: sc.clone(), parsers, refs: BTreeMap::new(), retained: std::sync::Mutex::new(Vec::new()) };
     let mut need: Vec<Op> = Vec::new();
     for op in sc.all_ops() {
         let mut clean = op.clone();
@@ -991,7 +1091,7 @@ fn reference_phase_inner2(sc: &Scenario, reverse: bool) -> RefPhase {
     // ... and in another process environment: every variable of the list (the usual ambient ones
     // plus whatever looks like a variable name in the library's source) flips between set and
     // unset. The worker is single-threaded here, so changing the environment is safe.
-    let flipped = flip_env();
+    let mut flipped = flip_env();
     // ... and at another date, with time running at another speed (the clock seam)
     let amb_clock = ambient_clock(sc);
     crate::clock::set(&amb_clock);
@@ -1010,34 +1110,46 @@ fn reference_phase_inner2(sc: &Scenario, reverse: bool) -> RefPhase {
         };
         if let Some(first) = env.refs.get(&key) {
             if *first != fp {
-                // which of the ambient changes was it? once more with the clock of the first pass ...
-                crate::clock::set(&crate::clock::ClockSpec::base());
-                let fresh = template_clone(&sc.parsers[op.parser]);
-                cooklang::verif_seam::reseed(crate::rng::mix2(sc.hash_seed ^ 0x3333, seen3.len() as u64));
-                let base_clock = match perform(&fresh, &sc.inputs[op.input], &op, false, 0).outcome {
-                    Outcome::Done(s) => s,
-                    Outcome::Unwound => "UNWOUND-IN-REFERENCE".into(),
+                // Is it the ambient state at all? Once more with everything as in the first pass: if
+                // the result still differs, the cause is what was observed in between (state shared
+                // by the never-used parsers of this process), not the ambient state.
+                let observe = |n: u64| {
+                    let fresh = template_clone(&sc.parsers[op.parser]);
+                    cooklang::verif_seam::reseed(crate::rng::mix2(sc.hash_seed ^ 0x3333, n));
+                    match perform(&fresh, &sc.inputs[op.input], &op, false, 0).outcome {
+                        Outcome::Done(s) => s,
+                        Outcome::Unwound => "UNWOUND-IN-REFERENCE".into(),
+                    }
                 };
-                crate::clock::set(&amb_clock);
-                if base_clock == *first {
-                    sim::violation("ambient-dependence", &key, "reference", format!("the result depends on the clock (wall clock {} s since the epoch, {} us per read, instead of {} s / 1 us): {}", amb_clock.wall_s, amb_clock.step_us, crate::clock::EPOCH_A, first_diff(first, &fp)));
-                    continue;
-                }
-                // ... and once more with the subscriber back on
+                let n = seen3.len() as u64;
+                let names: Vec<String> = flipped.iter().map(|(k, _)| k.clone()).collect();
+                unflip_env(std::mem::take(&mut flipped));
                 sim::set_trace(true);
-                let fresh = template_clone(&sc.parsers[op.parser]);
-                cooklang::verif_seam::reseed(crate::rng::mix2(sc.hash_seed ^ 0x3333, seen3.len() as u64));
-                let again = match perform(&fresh, &sc.inputs[op.input], &op, false, 0).outcome {
-                    Outcome::Done(s) => s,
-                    Outcome::Unwound => "UNWOUND-IN-REFERENCE".into(),
-                };
-                sim::set_trace(false);
-                let what = if again != *first {
-                    format!("on the process environment (flipped for this pass: {})", flipped.iter().map(|(k, _)| k.as_str()).collect::<Vec<_>>().join(" "))
+                crate::clock::set(&crate::clock::ClockSpec::base());
+                let restored = observe(n);
+                if restored != *first {
+                    sim::violation("history-dependence", &key, "reference", format!("a clean observation on a never-used parser differs from the first one of the same key, also with the ambient state of the first pass restored - it depends on what was observed in between: {}", first_diff(first, &restored)));
                 } else {
-                    "on whether a tracing subscriber is interested in the library's spans/events".to_string()
-                };
-                sim::violation("ambient-dependence", &key, "reference", format!("the result depends {what}: {}", first_diff(first, &fp)));
+                    // one factor at a time
+                    crate::clock::set(&amb_clock);
+                    let with_clock = observe(n);
+                    crate::clock::set(&crate::clock::ClockSpec::base());
+                    sim::set_trace(false);
+                    let without_trace = observe(n);
+                    sim::set_trace(true);
+                    let what = if with_clock != *first {
+                        format!("on the clock (wall clock {} s since the epoch, {} us per read, instead of {} s / 1 us)", amb_clock.wall_s, amb_clock.step_us, crate::clock::EPOCH_A)
+                    } else if without_trace != *first {
+                        "on whether a tracing subscriber is interested in the library's spans/events".to_string()
+                    } else {
+                        format!("on the process environment (flipped for this pass: {})", names.join(" "))
+                    };
+                    sim::violation("ambient-dependence", &key, "reference", format!("the result depends {what}: {}", first_diff(first, &fp)));
+                }
+                // back to the ambient state of this pass
+                flipped = flip_env();
+                sim::set_trace(false);
+                crate::clock::set(&amb_clock);
             }
         }
     }
@@ -1062,6 +1174,52 @@ fn reference_phase_inner2(sc: &Scenario, reverse: bool) -> RefPhase {
         if let Some(first) = env.refs.get(&key) {
             if *first != fp {
                 sim::violation("address-dependence", &key, "reference", format!("the same text handed over {} byte(s) into a buffer gives a different result: {}", op.align, first_diff(first, &fp)));
+            }
+        }
+    }
+    // Fifth pass: the same observations made by another OS thread - one with a name, another id,
+    // a small stack, fresh thread-locals (its first library call ever) and nothing of this
+    // thread's history. Which thread calls is not an input. (Normal build only: the rewritten
+    // primitives of the shadow build work inside an execution only.)
+    #[cfg(not(feature = "shadow"))]
+    {
+        let mut seen5 = std::collections::BTreeSet::new();
+        let todo: Vec<Op> = env.refs.keys().cloned().collect::<Vec<_>>().into_iter().filter_map(|k| {
+            sc.all_ops().into_iter().find(|op| {
+                let mut c = (*op).clone();
+                c.faults.clear();
+                full_key(sc, &c) == k
+            }).map(|op| {
+                let mut c = op.clone();
+                c.faults.clear();
+                c.align = 0;
+                c
+            })
+        }).filter(|op| seen5.insert(full_key(sc, op))).take(6).collect();
+        if !todo.is_empty() {
+            let sc2 = sc.clone();
+            let hs = sc.hash_seed;
+            let handle = std::thread::Builder::new().name(format!("pool-worker-{}", hs % 7)).stack_size(1 << 20).spawn(move || {
+                let mut out: Vec<(String, String)> = Vec::new();
+                for (i, op) in todo.iter().enumerate() {
+                    let fresh = build_parser(&sc2.parsers[op.parser]);
+                    cooklang::verif_seam::reseed(crate::rng::mix2(hs ^ 0x5555, i as u64));
+                    let fp = match perform(&fresh, &sc2.inputs[op.input], op, false, 0).outcome {
+                        Outcome::Done(s) => s,
+                        Outcome::Unwound => "UNWOUND-IN-REFERENCE".into(),
+                    };
+                    out.push((full_key(&sc2, op), fp));
+                }
+                out
+            });
+            if let Ok(Ok(results)) = handle.map(|h| h.join()) {
+                for (key, fp) in results {
+                    if let Some(first) = env.refs.get(&key) {
+                        if *first != fp {
+                            sim::violation("thread-dependence", &key, "reference", format!("the same call made by another OS thread (named, 1 MiB stack, its first library call) gives a different result: {}", first_diff(first, &fp)));
+                        }
+                    }
+                }
             }
         }
     }
@@ -1104,6 +1262,46 @@ fn unflip_env(saved: Vec<(String, Option<std::ffi::OsString>)>) {
 /// Phase 3: faults have stopped; every key is re-observed sequentially on the shared (now used)
 /// parsers, on clones of them and on the worker's long-lived parser.
 fn post_phase(env: &Arc<Env>) {
+    // results the caller kept: read again (they must not have changed), then dropped - the oldest
+    // half first to last, the rest last to first - before anything else is observed
+    {
+        let mut kept: Vec<Retained> = std::mem::take(&mut *env.retained.lock().unwrap_or_else(|p| p.into_inner()));
+        for k in &kept {
+            let again = match guarded(|| fp_result(&k.result, &env.sc.inputs[k.input], env.parsers[k.parser].converter())) {
+                Outcome::Done(s) => s,
+                Outcome::Unwound => "UNWOUND".into(),
+            };
+            if again != k.fp {
+                sim::violation("result-mutated", &k.key, "post", format!("a result the caller kept alive reads differently after later, unrelated calls: {}", first_diff(&k.fp, &again)));
+            }
+        }
+        let half = kept.len() / 2;
+        let tail: Vec<Retained> = kept.split_off(half);
+        let mut finish = |k: Retained| {
+            // consumed now the way this key is always consumed; what the consuming calls return
+            // must be what they return for the reference
+            let Retained { key, fp, mode, result, input, .. } = k;
+            if env.sc.inputs[input].len() > 100_000 {
+                return;
+            }
+            let late = match guarded(|| consume(result, mode)) {
+                Outcome::Done(s) => s,
+                Outcome::Unwound => "UNWOUND".into(),
+            };
+            if let Some(reference) = env.refs.get(&key) {
+                let whole = format!("{fp}\n{late}");
+                if *reference != whole {
+                    sim::violation("result-mutated", &key, "post", format!("consuming a result the caller kept alive gives something else than consuming it right away: {}", first_diff(reference, &whole)));
+                }
+            }
+        };
+        for k in kept {
+            finish(k);
+        }
+        for k in tail.into_iter().rev() {
+            finish(k);
+        }
+    }
     for op in env.sc.all_ops() {
         let mut clean = op.clone();
         clean.faults.clear();
